@@ -28,7 +28,7 @@ RULE = (
     "ground truth W is what a second handler on the same logger saw at or above the file level. Oracle: forward = W (text, "
     "priority = from_level(level), tags, timestamp to the microsecond); threshold p = [r in W | prio <= p]; offset k = W[k:]; "
     "reverse = W[::-1]; tail n = last n (n >= len gives all); head n = first n of the filtered sequence; len(reader) = |W|; "
-    "identical for all containers; hr prints str(record) of exactly those. Non-trivial: >= 2 records and a non-forward mode or a "
+    "identical for all containers; hr prints str(record) of exactly those. Burst cases log 1 000 - 100 000 short records back to back.  Non-trivial: >= 2 records and a non-forward mode or a "
     "threshold that removes something. Distinct by (records, mode, container)."
 )
 ASSUMPTIONS = [
@@ -163,9 +163,19 @@ def expected_selection(W: list[dict[str, Any]], mode: str, k: int, prio: int) ->
     raise AssertionError(mode)
 
 
+def expand_burst(case: dict[str, Any]) -> dict[str, Any]:
+    """A burst case names its records by (n, salt) instead of listing them: n short records logged back to back."""
+    if "burst" not in case:
+        return case
+    n, salt = case["burst"], case.get("salt", 0)
+    recs = [{"msg": f"b{i}-{(i * 2654435761 + salt) & 0xFFFF:x}", "level": LEVELS[(i * 7 + salt + i // 5) % 7], "tags": None, "exc": False} for i in range(n)]
+    return {**{k: v for k, v in case.items() if k not in ("burst", "salt")}, "records": recs}
+
+
 def check(case: dict[str, Any]) -> list[tuple[str, str]]:
     from gallia.log import PenlogPriority, PenlogReader
 
+    case = expand_burst(case)
     out: list[tuple[str, str]] = []
     d = Path(tempfile.mkdtemp(prefix="vf-c17."))
     try:
@@ -284,7 +294,9 @@ def nontrivial(case: dict[str, Any]) -> bool:
 
 
 def shards(tier: str) -> list[dict[str, Any]]:
-    return [{"n": 260 if tier == "quick" else 6000} for _ in range(16)]
+    if tier == "quick":
+        return [{"n": 260} for _ in range(15)] + [{"burst": [3000, 20000]}]
+    return [{"n": 6000} for _ in range(14)] + [{"burst": [1025, 2500, 20000, 60000]}, {"burst": [5000, 40000, 100000]}]
 
 
 def run_shard(spec: dict[str, Any], seed: int) -> Collector:
@@ -300,6 +312,16 @@ def run_shard(spec: dict[str, Any], seed: int) -> Collector:
         for b, m in res:
             col.violation(b, case, m)
 
+    if "burst" in spec:
+        # long runs: tens of thousands of records logged back to back (a scan's trace log), read forward and from the tail
+        for i, n in enumerate(spec["burst"]):
+            for mode, k in (("forward", 0), ("tail", 10)):
+                case = {"burst": n, "salt": (seed * 31 + i) & 0xFFFF, "file_level": 5, "container": "zst", "mode": mode, "k": k, "prio": 8, "via": "reader"}
+                res = check(case)
+                col.case(("burst", n, case["salt"], mode), True, cls=f"burst/{mode}", sample=case)
+                for b, m in res:
+                    col.violation(b, case, m)
+        return col
     run_given(case_s(), body, spec["n"], seed)
     return col
 
